@@ -58,6 +58,18 @@ def enum {α : Type} (xs : List α) : List (Int × α) := enumFrom 0 xs
 /-- `m[k] = v` on a string map kept as an association list (latest binding first, older one removed) -/
 def kvSet (m : KV) (k v : Bytes) : KV := (k, v) :: m.filter (fun x => x.1 != k)
 
+/-- `m[k]` on a string-valued Go map (the zero value "" when the key is absent) -/
+def kvGetD (m : KV) (k : Bytes) : Bytes :=
+  match m.find? (fun x => x.1 == k) with
+  | some x => x.2
+  | none => []
+
+/-- `strings.SplitN(s, string(c), 2)`: cut at the first `c` -/
+def splitN2 (s : Bytes) (c : Nat) : List Bytes :=
+  match Bytes.indexByte s c with
+  | some i => [s.take i, s.drop (i + 1)]
+  | none => [s]
+
 /-- `strings.IndexByte`, with Go's `-1` -/
 def indexByte (s : Bytes) (c : Nat) : Int :=
   match Bytes.indexByte s c with
